@@ -12,9 +12,19 @@ SINK_OUT, SINK_ERR = io.StringIO(), io.StringIO()
 REAL_STDOUT = sys.stdout
 
 
+CREATED = set()
+
+
 class Obj:
-    def __init__(self, n): self.n = n
+    def __init__(self, n):
+        self.n = n
+        CREATED.add(id(self))
     def __repr__(self): return f'o{self.n}'
+    def __copy__(self): return object.__new__(Obj).__init_copy(self.n)
+    def __deepcopy__(self, memo): return object.__new__(Obj).__init_copy(self.n)
+    def _Obj__init_copy(self, n):
+        self.n = n
+        return self
 
 
 def val(j):
@@ -38,7 +48,7 @@ def show(v):
     if isinstance(v, str): return f's<{v}>'
     if isinstance(v, tuple): return '(' + ','.join(show(x) for x in v) + ')'
     if isinstance(v, dict): return '{' + ','.join(f'{k}:{show(x)}' for k, x in v.items()) + '}'
-    if isinstance(v, Obj): return f'o{v.n}'
+    if isinstance(v, Obj): return f'o{v.n}' + ('' if id(v) in CREATED else '?copy')
     if inspect.isgenerator(v) or inspect.iscoroutine(v): return 'g'
     if isinstance(v, type): return f'c<{v.__name__}>'
     return f'?<{type(v).__name__}>'
